@@ -1,0 +1,10 @@
+// Copyright 2026 Juan Pablo Tosso and the OWASP Coraza contributors
+// SPDX-License-Identifier: Apache-2.0
+
+//go:build !verif
+
+package collections
+
+import "github.com/corazawaf/coraza/v3/types"
+
+func verifOrder([]types.MatchData) {}
